@@ -14,6 +14,7 @@ type chanState struct {
 	buf    []any
 	closed bool
 	timer  *vtimer // set when this is a timer/ticker channel
+	keep   any     // the channel itself: keeps it alive so that its address cannot be reused by another channel during the execution
 }
 
 //go:norace
@@ -36,7 +37,7 @@ func (s *sched) chanOf(ch any) *chanState {
 			return s.chanVals[i]
 		}
 	}
-	cs := &chanState{cap: reflect.ValueOf(ch).Cap()}
+	cs := &chanState{cap: reflect.ValueOf(ch).Cap(), keep: ch}
 	s.chanKeys = append(s.chanKeys, k)
 	s.chanVals = append(s.chanVals, cs)
 	return cs
